@@ -319,9 +319,6 @@ func VerifH_C02_archive_assets() {
 func VerifH_C06_retry_bound() {
 	_ = stats.Init()
 	maxRetry := []int{0, 1, 3, 6, 7}[verifrt.Choice("max-retry", 5)]
-	if !verifrt.Symbolic() && maxRetry > 6 {
-		return // (the real back-off sleeps 2 s more per retry: budgets beyond 6 are left to the symbolic run)
-	}
 	cfg := &config.Config{MaxConcurrentAssets: 1, MaxRetry: maxRetry, WARCWriteAsync: true, HTTPReadDeadline: 10}
 	config.VerifSet(cfg)
 	domainscrawl.Reset()
@@ -395,6 +392,7 @@ func VerifH_C06_retry_bound() {
 		verifrt.Cover("large-retry-budget")
 	}
 	verifrt.Cover("retries-exhausted")
-	verifrt.Assert(n == maxRetry+1, "C06 a failing URL is attempted exactly max-retry + 1 times")
-	verifrt.Assert(seed.GetStatus() == models.ItemFailed, "C02 a URL whose attempts all failed is failed, not archived")
+	budget := " [max-retry=" + string(rune('0'+maxRetry)) + "]" // (one native replay per budget)
+	verifrt.Assert(n == maxRetry+1, "C06 a failing URL is attempted exactly max-retry + 1 times"+budget)
+	verifrt.Assert(seed.GetStatus() == models.ItemFailed, "C02 a URL whose attempts all failed is failed, not archived"+budget)
 }
